@@ -2557,7 +2557,8 @@ def no_make_interval_sql(self: Generator, expression: exp.MakeInterval, sep: str
 
         args.append(f"{value} {unit}")
 
-    return f"INTERVAL '{self.format_args(*args, sep=sep)}'"
+    # Joined as is: the pretty printer's line breaks don't belong inside the string
+    return f"INTERVAL '{sep.join(args)}'"
 
 
 def length_or_char_length_sql(self: Generator, expression: exp.Length) -> str:
